@@ -112,11 +112,13 @@ impl<K: Ord, V> BTreeMap<K, V> {
     }
     pub fn get_mut(&mut self, k: &K) -> Option<&mut V> {
         let p = self.pos(k);
-        let base = self.slots.as_mut_ptr();
+        // a place projection with a constant index on the map itself: pointer arithmetic on the slot array
+        // (`as_mut_ptr().add(i)`) makes CBMC access the array byte-wise, which explodes for large values
+        let me: *mut Self = self;
         unroll!(i, {
             if i == p {
-                // SAFETY: i < CAP is a constant index
-                return unsafe { &mut *base.add(i) }.as_mut().map(|(_, v)| v);
+                // SAFETY: i < CAP is a constant index; `me` is the unique borrow of self
+                return unsafe { &mut (*me).slots[i] }.as_mut().map(|(_, v)| v);
             }
         });
         None
@@ -158,14 +160,7 @@ impl<K: Ord, V> BTreeMap<K, V> {
         if p == CAP {
             return btree_map::Entry::Vacant(btree_map::VacantEntry { map: self, key: k });
         }
-        let base = self.slots.as_mut_ptr();
-        unroll!(i, {
-            if i == p {
-                // SAFETY: i < CAP is a constant index
-                return btree_map::Entry::Occupied(btree_map::OccupiedEntry { slot: unsafe { &mut *base.add(i) } });
-            }
-        });
-        unreachable!()
+        btree_map::Entry::Occupied(btree_map::OccupiedEntry { map: self, pos: p })
     }
     /// Moves every entry with key `>= k` into the returned map.
     pub fn split_off(&mut self, k: &K) -> Self {
@@ -260,31 +255,70 @@ pub mod btree_map {
         Occupied(OccupiedEntry<'a, K, V>),
         Vacant(VacantEntry<'a, K, V>),
     }
+    // Both entry kinds start with the same `map` reference and the occupied one addresses its slot by
+    // position: with `Occupied { slot: &mut Option<(K, V)> }` next to `Vacant { map: &mut BTreeMap }` the two
+    // references of different target types share the enum's payload bytes, CBMC then dereferences the slot
+    // reference as either target, and for a large `V` (a whole `SlotState`) the byte-wise reinterpretation
+    // exhausts memory (measured: `entry().or_insert_with()` on an occupied map, > 30 GB).
+    #[repr(C)]
     pub struct OccupiedEntry<'a, K, V> {
-        pub(super) slot: &'a mut Option<(K, V)>,
+        pub(super) map: &'a mut BTreeMap<K, V>,
+        pub(super) pos: usize,
     }
+    #[repr(C)]
     pub struct VacantEntry<'a, K, V> {
         pub(super) map: &'a mut BTreeMap<K, V>,
         pub(super) key: K,
     }
     impl<'a, K: Ord, V> OccupiedEntry<'a, K, V> {
+        fn slot(&self) -> &Option<(K, V)> {
+            let p = self.pos;
+            unroll!(i, {
+                if i == p {
+                    return &self.map.slots[i];
+                }
+            });
+            unreachable!()
+        }
+        fn slot_mut(&mut self) -> &mut Option<(K, V)> {
+            let p = self.pos;
+            let me: *mut BTreeMap<K, V> = self.map;
+            unroll!(i, {
+                if i == p {
+                    // SAFETY: i < CAP is a constant index; `me` is the unique borrow of the map
+                    return unsafe { &mut (*me).slots[i] };
+                }
+            });
+            unreachable!()
+        }
+        fn into_slot(self) -> &'a mut Option<(K, V)> {
+            let p = self.pos;
+            let me: *mut BTreeMap<K, V> = self.map;
+            unroll!(i, {
+                if i == p {
+                    // SAFETY: as above; the entry is consumed, the borrow lives for 'a
+                    return unsafe { &mut (*me).slots[i] };
+                }
+            });
+            unreachable!()
+        }
         pub fn get(&self) -> &V {
-            &self.slot.as_ref().unwrap().1
+            &self.slot().as_ref().unwrap().1
         }
         pub fn get_mut(&mut self) -> &mut V {
-            &mut self.slot.as_mut().unwrap().1
+            &mut self.slot_mut().as_mut().unwrap().1
         }
         pub fn into_mut(self) -> &'a mut V {
-            &mut self.slot.as_mut().unwrap().1
+            &mut self.into_slot().as_mut().unwrap().1
         }
         pub fn key(&self) -> &K {
-            &self.slot.as_ref().unwrap().0
+            &self.slot().as_ref().unwrap().0
         }
         pub fn insert(&mut self, v: V) -> V {
             std::mem::replace(self.get_mut(), v)
         }
         pub fn remove(self) -> V {
-            self.slot.take().unwrap().1
+            self.into_slot().take().unwrap().1
         }
     }
     impl<'a, K: Ord, V> VacantEntry<'a, K, V> {
@@ -295,11 +329,11 @@ pub mod btree_map {
                 super::over_capacity();
             }
             map.slots[f] = Some((key, v));
-            let base = map.slots.as_mut_ptr();
+            let me: *mut super::BTreeMap<K, V> = map;
             unroll!(i, {
                 if i == f {
-                    // SAFETY: i < CAP is a constant index
-                    return &mut unsafe { &mut *base.add(i) }.as_mut().unwrap().1;
+                    // SAFETY: i < CAP is a constant index; `me` is the unique borrow of the map
+                    return &mut unsafe { &mut (*me).slots[i] }.as_mut().unwrap().1;
                 }
             });
             unreachable!()
